@@ -222,6 +222,7 @@ class Threads(EngineBase):
             k.end_op()
             acc = [a for a in k.acclog[acc0:] if a[2] >= 0]
             reads = {}
+            allreads = []
             opens = {}
             opens_all = {}
             for a in acc:
@@ -232,6 +233,7 @@ class Threads(EngineBase):
                         continue
                     if a[3] == "read":
                         reads.setdefault(what, a[7])
+                        allreads.append((what, a[7]))
                     if a[3] == "open":
                         opens_all[what] = opens_all.get(what, 0) + 1
                     if a[3] == "open":
@@ -277,6 +279,7 @@ class Threads(EngineBase):
                         block["faulted"] = True   # refusals are not cached
                     for w, v in reads.items():
                         block["first"].setdefault(w, v)
+                    block.setdefault("allreads", []).extend(allreads)
                     for w, n in opens.items():
                         block["opens"][w] = block["opens"].get(w, 0) + n
                 keys.add("C16s|as_dict|%s|%s" % (
@@ -296,6 +299,7 @@ class Threads(EngineBase):
             if stack:
                 for w, v in reads.items():
                     block["first"].setdefault(w, v)
+                block.setdefault("allreads", []).extend(allreads)
                 for w, n in opens.items():
                     block["opens"][w] = block["opens"].get(w, 0) + n
                 # read-once for the shared sources
@@ -321,8 +325,20 @@ class Threads(EngineBase):
                         cands.append(self._eval(psutil, k, name))
                         ok = self._same(cands[-1], got)
                     if not ok:
-                        for key, pr in pins_all.items():
-                            c = self._eval(psutil, k, name, pins={key: pr})
+                        # any single file pinned at any version at which the
+                        # block read it (psutil's own zombie / existence
+                        # probes read /proc/<pid>/stat outside the cache, so
+                        # the cached record may stem from a later read)
+                        tried = set()
+                        for (w, v) in block.get("allreads", []):
+                            if (w, v) in tried:
+                                continue
+                            tried.add((w, v))
+                            pr = k.proc_at(T, v)
+                            if pr is None:
+                                continue
+                            c = self._eval(psutil, k, name,
+                                           pins={(T, w): pr})
                             cands.append(c)
                             if self._same(c, got):
                                 ok = True
